@@ -137,6 +137,11 @@ TreeOverlap(A, B) ==
 BitCell(a, z, mn, mx) ==
   LET raw == FloorDiv((a - mn) * Pow2(z), mx - mn)
   IN  IF raw < 0 THEN 0 ELSE IF raw > Pow2(z) - 1 THEN Pow2(z) - 1 ELSE raw
+\* the same when the cell height `cell` (= (mx - mn) / 2^z, a whole number of units) is given:
+\* used for subdivision zooms up to 35, where 2^z itself exceeds the model's integers
+BitCellByHeight(a, z, mn, cell) ==
+  LET raw == FloorDiv(a - mn, cell)
+  IN  IF raw < 0 THEN 0 ELSE IF z < 30 /\ raw > Pow2(z) - 1 THEN Pow2(z) - 1 ELSE raw
 \* implementation-shaped: repeated halving (mirrors calcBitIndex), on units
 \* scaled by 2^z so that every border is an integer
 RECURSIVE Halve(_, _, _, _, _)
